@@ -32,6 +32,10 @@ func rulesC03(w *World, r *Report) {
 	})
 	w.ruleLocalIndexInRange(r, "C03.R8 element accesses of local containers are in range", 3)
 	w.ruleAppendStartsEmpty(r, "C03.R9 a container grown by appending starts empty", 2)
+	{
+		reach := w.reachPkg(w.decodeEntryPoints()...)
+		w.ruleAccessorKinds(r, "C03.R11 reflect accessors meet the kind they require", func(fn *ssa.Function) bool { return reach[fn] || reach[rootFn(fn)] })
+	}
 	w.ruleReadersAcceptSpecTags(r, "C03.R10 a container reader accepts every tag of its production", 3)
 	w.ruleCountGuardsTight(r, "C03.R7 count guards refuse only negative counts", 3)
 	w.ruleIndexGuardsTightPX(r, "C03.R7 index guards refuse only invalid indices")
